@@ -244,6 +244,10 @@ replace verifsim => %s
 	sum, _ := os.ReadFile(filepath.Join(verifDir, "sim", "go.sum"))
 	writeFile(filepath.Join(dir, "go.sum"), string(sum))
 	writeFile(filepath.Join(dir, "progs", "progs.go"), gen.Emit(progs))
+	writeFile(filepath.Join(dir, "ifc", "ifc.go"), gen.EmitIfc(progs))
+	if alt := gen.EmitAlt(progs); alt != "" {
+		writeFile(filepath.Join(dir, "alt", "progs", "progs.go"), alt)
+	}
 	if lin {
 		n, err := copyLin(dir)
 		if err != nil {
